@@ -17,15 +17,15 @@ import (
 // regression is reported as a fresh violation.
 
 type pinnedAsm struct {
-	prop   string
-	name   string
-	loader bool   // ParseLoadFile instead of CompileWarrior
-	mode   string // "94" "88"
-	m      int
-	length int
-	text   string
-	want   []string // expected instructions "OP.MOD mA, mB" (fields mod M); nil with wantErr
-	start  int
+	prop    string
+	name    string
+	loader  bool   // ParseLoadFile instead of CompileWarrior
+	mode    string // "94" "88"
+	m       int
+	length  int
+	text    string
+	want    []string // expected instructions "OP.MOD mA, mB" (fields mod M); nil with wantErr
+	start   int
 	wantErr bool
 }
 
